@@ -173,6 +173,12 @@ def lastOp (sem : Sem) (f : FloatOps) (v : Val) : TOut :=
   | some w => .val w
   | none => .off
 
+/-- `c.size() - n` -/
+def sizeMinusVal (sem : Sem) (n : Nat) (cv : Val) : TOut :=
+  match sem.size cv with
+  | some k => .val (.int (k - n))
+  | none => .off
+
 def joinStr (t r : Val) : TOut :=
   match t, r with
   | .str t, .str r => .val (.str (t ++ r))
@@ -190,11 +196,7 @@ mutual
       match k with
       | .cppBack => (evalT sem ρ c).bind fun cv => ofOpt (sem.index .cppBack cv (.int (-1)))
       | k => (evalT sem ρ c).bind2 (evalT sem ρ i) fun cv iv => ofOpt (sem.index k cv iv)
-    | .sizeMinus c n =>
-      (evalT sem ρ c).bind fun cv =>
-        match sem.size cv with
-        | some k => .val (.int (k - n))
-        | none => .off
+    | .sizeMinus c n => (evalT sem ρ c).bind (sizeMinusVal sem n)
     | .len k e => (evalT sem ρ e).bind fun v => ofOpt (sem.len k v)
     | .contains k c m =>
       (evalT sem ρ c).bind2 (evalT sem ρ m) fun cv mv => ofOpt (sem.contains ρ.fops k cv mv)
